@@ -121,30 +121,35 @@ Theorem C42_block_on_returns_output : forall ops val v,
 Proof. exact block_on_returns_output. Qed.
 
 (* block_timeout: Ok(v) is the future's own output, returned after its completion. *)
-Theorem C42_block_timeout_ok_is_output : forall ops now dur val v u at_,
+Theorem C42_block_timeout_ok_is_output : forall ops now dur val v at_,
   let s := brun ops (binit now dur val) in
-  b_pc s = BDone (BOk v) u at_ -> v = val /\ exists t, b_done s = Some t /\ t <= at_.
+  b_pc s = BDone (BOk v) at_ -> v = val /\ exists t, b_done s = Some t /\ t <= at_.
 Proof. exact block_timeout_ok_is_output. Qed.
 
-(* block_timeout returns Timeout only after the whole duration has passed, and -
-   unless it left through the else branch while a wake token was waiting unseen in
-   the channel (unseen = true, recorded finding C42-timeout-unseen-wake) - only if
-   the future had not completed within the duration: its completion time t, if any,
-   is not before start + duration nor before the return. *)
-Theorem C42_block_timeout_only_late : forall ops now dur val unseen at_,
+(* block_timeout returns Timeout only after the whole duration has passed and only if
+   the future had not completed within the duration: its completion time t, if any, is
+   not before start + duration nor before the return.  (All interleavings, all thread
+   timings; no excluded class any more - fix 8591c31.) *)
+Theorem C42_block_timeout_only_late : forall ops now dur val at_,
   let s := brun ops (binit now dur val) in
-  b_pc s = BDone BTimeout unseen at_ ->
+  b_pc s = BDone BTimeout at_ ->
   now + dur <= at_ /\
-  (unseen = false -> forall t, b_done s = Some t -> now + dur <= t /\ at_ <= t).
+  (forall t, b_done s = Some t -> now + dur <= t /\ at_ <= t).
 Proof. exact block_timeout_only_late. Qed.
 
-(* the excluded class is real: a run in which Timeout is returned although the future
-   completed (and woke) at time 0 < 0 + 10 *)
-Theorem C42_block_timeout_unseen_wake_refutes :
-  exists ops t at_,
-    let s := brun ops (binit 0 10 7) in
-    b_pc s = BDone BTimeout true at_ /\ b_done s = Some t /\ t < 0 + 10.
-Proof. exact late_check_window_exists. Qed.
+(* the scenario of the former finding C42-timeout-unseen-wake: the poll said Pending, the
+   future completed (and woke) meanwhile, and the clock read finds the duration over -
+   in every reachable such state the thread's own next steps (try_recv sees the wake,
+   last poll) return the output *)
+Theorem C42_late_wake_is_seen : forall ops now dur val,
+  let s := brun ops (binit now dur val) in
+  b_pc s = BChecking -> b_done s <> None -> b_dur s < b_clock s - b_start s ->
+  exists at_, b_pc (brun [BCheck; BCheck2; BPoll] s) = BDone (BOk val) at_.
+Proof. exact late_wake_is_seen_reachable. Qed.
+
+Example C42_late_wake_is_seen_run :
+  b_pc (brun [BPoll; BComplete; BTick 11; BCheck; BCheck2; BPoll] (binit 0 10 7)) = BDone (BOk 7) 11.
+Proof. exact late_wake_is_seen_run. Qed.
 
 (* After fix 7de0553 (the waker does try_send; former finding
    C42-block-timeout-self-wake-deadlock): a wake issued from inside poll - also with a
@@ -167,15 +172,15 @@ Theorem C42_self_wake_then_poll_proceeds : forall s,
   let s' := brun [BSelfWake; BSelfWake; BPoll] s in
   match b_done s with
   | None => b_pc s' = BChecking /\ b_tok s' = true
-  | Some _ => exists at_, b_pc s' = BDone (BOk (b_val s)) false at_
+  | Some _ => exists at_, b_pc s' = BDone (BOk (b_val s)) at_
   end.
 Proof. exact self_wake_then_poll_proceeds. Qed.
 
 (* a completed future whose wake token is in the channel is returned by the thread's
-   own next two steps, whatever the clock *)
+   own next steps, whatever the clock (in the loop or by the last poll) *)
 Theorem C42_block_timeout_completes : forall s lim,
   b_pc s = BWaiting lim -> b_done s <> None -> b_tok s = true ->
-  exists at_, b_pc (brun [BRecvOk; BPoll] s) = BDone (BOk (b_val s)) false at_.
+  exists at_, b_pc (brun [BRecvOk; BCheck2; BPoll] s) = BDone (BOk (b_val s)) at_.
 Proof. exact block_timeout_completes. Qed.
 
 (* Executor join handshake (ExecutorTaskHandle::join against the executor thread, all
@@ -215,7 +220,7 @@ Proof. exact demo_facts. Qed.
 
 Example C42_nonvacuous_timeout :
   let s := brun [BPoll; BCheck; BTick 10; BRecvTimeout; BTick 5; BComplete] (binit 0 10 7) in
-  b_pc s = BDone BTimeout false 10 /\ b_done s = Some 15.
+  b_pc s = BDone BTimeout 10 /\ b_done s = Some 15.
 Proof. vm_compute. split; reflexivity. Qed.
 
 Print Assumptions C42_no_early_completion.
@@ -234,7 +239,7 @@ Print Assumptions C42_drop_window_exists.
 Print Assumptions C42_block_on_returns_output.
 Print Assumptions C42_block_timeout_ok_is_output.
 Print Assumptions C42_block_timeout_only_late.
-Print Assumptions C42_block_timeout_unseen_wake_refutes.
+Print Assumptions C42_late_wake_is_seen.
 Print Assumptions C42_self_wake_never_blocks.
 Print Assumptions C42_self_wake_then_poll_proceeds.
 Print Assumptions C42_block_timeout_completes.
